@@ -18,7 +18,8 @@ MANIFEST = dict(
           "mixture is compared with the real sampler's exact mixture (channel pushforward x forced sampling) and the reference "
           "simulator on generated noisy circuits incl. one-hot arguments of the 3/15-argument channels. Composition: proved for circuits of "
           "gates, (noisy) single-qubit measurements, resets and single-qubit Pauli channels on registers of any size, for every bit "
-          "assignment and every probability argument (C02_circuit_dense); two-qubit channels, chains and MPP noise at fragment level."),
+          "assignment and every probability argument (C02_circuit_dense), including DEPOLARIZE2 / PAULI_CHANNEL_2 (their program acts as "
+          "PAULI_CHANNEL_1 on each target, C02_two_qubit_channel); correlated chains and MPP noise at fragment level."),
     note=("Trusted: as C01; additionally translate/channel_tables.py, the hand model of correlated_error_probs (fingerprint-pinned), "
           "float64 exactness of dyadic test probabilities. Print Assumptions: closed under the global context, except "
           "functional_extensionality_dep (standard library) for C02_circuit_dense."),
@@ -26,7 +27,7 @@ MANIFEST = dict(
     design_ref="DESIGN.md 4.C02",
 )
 COQ_FILES = MODEL_FILES + ["Base/Amp.v", "Model/KrausCheck.v", "Proofs/CircuitProofs.v", "Proofs/CircuitTheorem.v", "Proofs/BitIdx.v",
-                          "Proofs/DenseBridge.v", "Proofs/KrausSem.v", "Proofs/KrausLocal.v", "Proofs/KrausTheorem.v", "Proofs/KrausGates.v", "Proofs/KrausFeedback.v",
+                          "Proofs/DenseBridge.v", "Proofs/KrausSem.v", "Proofs/KrausLocal.v", "Proofs/KrausTheorem.v", "Proofs/KrausGates.v", "Proofs/KrausFeedback.v", "Proofs/KrausNoise2.v",
                           "Proofs/KrausCircuit.v", "Props/C02.v"]
 
 
